@@ -215,6 +215,15 @@ func RepExprs(yield func(name string, x X)) {
 	yield("cast-op-params", CastOp(Col("c1"), "numeric(10,2)"))
 	yield("interval", Interval("1 day"))
 	yield("array", Array([]X{Int("1"), Int("2")}))
+	// boundary arities: constructs that parse their elements in a loop, with no element and with exactly one
+	yield("array-empty", X{Toks: []Tok{kw("ARRAY"), {S: "[", Call: true}, pt("]")}, Full: []Tok{kw("ARRAY"), {S: "[", Call: true}, pt("]")},
+		N: &ast.ArrayConstructorExpression{}, P: PPrimary, Feat: []string{"expr.array", "expr.array.empty"}})
+	yield("array-one", Array([]X{Col("c1")}))
+	yield("array-nested-empty", Array([]X{Array([]X{Int("1")}), X{Toks: []Tok{kw("ARRAY"), {S: "[", Call: true}, pt("]")}, Full: []Tok{kw("ARRAY"), {S: "[", Call: true}, pt("]")},
+		N: &ast.ArrayConstructorExpression{}, P: PPrimary, Feat: []string{"expr.array", "expr.array.empty"}}}))
+	yield("in-list-one", In(Col("c1"), false, []X{Int("1")}))
+	yield("call-no-args", Func("f1", nil, FuncOpts{}))
+	yield("call-over-empty", Func("SUM", []X{Col("c1")}, FuncOpts{Over: &Window{}}))
 	yield("subscript", Subscript(Col("c1"), Int("1")))
 	yield("subscript2", Subscript(Subscript(Col("c1"), Int("1")), Int("2")))
 	yield("slice", Slice(Col("c1"), xp(Int("1")), xp(Int("2"))))
